@@ -32,3 +32,76 @@ PROPS["C05"] = {
           covers=["ok after a short read or write"], timeout=3600, mem_gb=24),
     ],
 }
+
+
+def E(name, module, func, tier="quick", **kw):
+    d = {"name": name, "module": module, "func": func, "tier": tier}
+    d.update(kw)
+    return d
+
+
+E2_TECH = "forking symbolic execution of rustc MIR of the real functions, path conditions and lemmas decided by z3 (cvc5 cross-check)"
+KANI_TECH = "bounded model checking of the real code with Kani/CBMC (CaDiCaL) over nondeterministic syscall stubs"
+BOTH_TECH = "symbolic execution of the real code: MIR->SMT (z3, cvc5 cross-check) for libxcp logic, Kani/CBMC for libfs I/O loops"
+
+L2_ASSUME = [
+    "libfs contracts used as call summaries at the libxcp level (harness-checked at L1 where a Kani harness exists): "
+    "copy_file_bytes/copy_file_offset return Ok(k) with 1 <= k <= request or Err; next_sparse_segments returns pos <= data <= hole <= len with progress",
+    "source files are not modified while they are copied",
+    "logging is disabled (log level checks evaluate to false); formatting calls are opaque",
+]
+
+PROPS["C01"] = {
+    "engine": "mir-smt", "technique": BOTH_TECH,
+    "level_text": "MIR-level symbolic execution of both copy paths with SMT-decided lemmas: the parfile copy loop and the sparse segment walk by "
+                  "one inductive step from an arbitrary loop state (any length, block size, short counts), the parblock partition for an arbitrary "
+                  "block index over full 64-bit ranges, the block job against the copy_file_offset contract, and the range selection of queue_file_blocks",
+    "level_note": "trusted: the MIR parser/interpreter in /verif/mirsmt, the call summaries listed under assumptions, z3 (cvc5 cross-check on lemma queries); "
+                  "extent lists bounded to 2 (quick) / 3 (thorough) extents; Driver::copy thread plumbing not executed",
+    "assumptions": L2_ASSUME,
+    "e2": [
+        E("copy_bytes_step", "p_copy", "lemma_copy_bytes"),
+        E("copy_sparse_step", "p_copy", "lemma_copy_sparse"),
+        E("copy_file", "p_copy", "lemma_copy_file"),
+        E("partition", "p_parblock", "lemma_partition"),
+        E("block_job", "p_parblock", "lemma_block_job"),
+        E("queue_file_blocks", "p_parblock", "lemma_queue_file_blocks"),
+    ],
+}
+PROPS["C10"] = {
+    "engine": "mir-smt", "technique": E2_TECH,
+    "level_text": "all paths of finalise_copy / Drop for CopyHandle enumerated symbolically over every flag combination and every step outcome; "
+                  "order, once-only and flag lemmas decided by z3",
+    "level_note": "trusted: MIR interpreter + summaries of libfs::copy_permissions/copy_timestamps/copy_owner/sync (their bodies are L1 obligations); "
+                  "the kernel rule that fchown clears set-id bits is encoded as the ordering lemma",
+    "assumptions": L2_ASSUME,
+    "e2": [E("finalise", "p_finalise", "lemma_finalise"), E("queue_file_blocks", "p_parblock", "lemma_queue_file_blocks"),
+           E("block_job", "p_parblock", "lemma_block_job")],
+}
+PROPS["C18"] = {
+    "engine": "mir-smt", "technique": E2_TECH,
+    "level_text": "fsync is the last finalisation step on every path; finalisation is tied to the last reference of the handle "
+                  "(Arc count model) in queue_file_blocks and the block job",
+    "level_note": "trusted: MIR interpreter, Arc reference-count model; cross-thread ordering beyond Arc's contract is assumed",
+    "assumptions": L2_ASSUME + ["Arc drops the inner value exactly when the last clone is dropped"],
+    "e2": [E("finalise", "p_finalise", "lemma_finalise"), E("queue_file_blocks", "p_parblock", "lemma_queue_file_blocks")],
+}
+PROPS["C04"] = {
+    "engine": "mir-smt", "technique": E2_TECH,
+    "level_text": "every fallible environment call forks into Ok/Err; on each Err path the function must return Err or send an Error update",
+    "level_note": "trusted: MIR interpreter; main's conversion of Err/Error-update into the exit status is read from the code, not executed",
+    "assumptions": L2_ASSUME,
+    "e2": [E("copy_bytes_step", "p_copy", "lemma_copy_bytes"), E("copy_sparse_step", "p_copy", "lemma_copy_sparse"),
+           E("copy_file", "p_copy", "lemma_copy_file"), E("finalise", "p_finalise", "lemma_finalise"),
+           E("drop", "p_finalise", "lemma_drop"), E("block_job", "p_parblock", "lemma_block_job"),
+           E("queue_file_blocks", "p_parblock", "lemma_queue_file_blocks")],
+}
+PROPS["C15"] = {
+    "engine": "mir-smt", "technique": E2_TECH,
+    "level_text": "all reflink modes x clone outcomes {ok, unsupported, error} enumerated through try_reflink in copy_file and queue_file_blocks",
+    "level_note": "trusted: MIR interpreter; libfs::reflink's errno classification is an L1 obligation",
+    "assumptions": L2_ASSUME,
+    "e2": [E("copy_file", "p_copy", "lemma_copy_file"), E("queue_file_blocks", "p_parblock", "lemma_queue_file_blocks")],
+}
+PROPS["C05"]["e2"] = [E("copy_bytes_step", "p_copy", "lemma_copy_bytes"), E("block_job", "p_parblock", "lemma_block_job")]
+PROPS["C05"]["technique"] = BOTH_TECH
